@@ -32,7 +32,7 @@ type Case struct {
 func menu(w *chain.World) []chain.Action {
 	return []chain.Action{
 		chain.V1Pay(true, 2), chain.V1Chain(), chain.V1SF(true), chain.V1Form(1, 2, 100), chain.V1Revise("pay"), chain.V1Proof(false),
-		chain.V2Pay(chain.AddrV2, true, 2), chain.V2Pay(chain.AddrV1, false, 1), chain.V2Chain(chain.AddrV2), chain.V2Chain2(chain.AddrACS), chain.V2SF(true), chain.V2SFChain(), chain.V2Form(1, 2, 100), chain.V2Form(0, 1, 10),
+		chain.V2Pay(chain.AddrV2, true, 2), chain.V2Pay(chain.AddrV1, false, 1), chain.V2Pay(chain.AddrThresh, false, 1), chain.V2Chain(chain.AddrV2), chain.V2Chain2(chain.AddrACS), chain.V2SF(true), chain.V2SFChain(), chain.V2Form(1, 2, 100), chain.V2Form(0, 1, 10),
 		chain.V2Revise("pay"), chain.V2Renew("partial"), chain.V2Proof(), chain.V2Expire(), chain.V2Attest(),
 		// transactions whose lists have different lengths / several elements and kinds per transaction
 		chain.V1Gather(), chain.Merge(chain.V1Pay(true, 2), chain.V1SF(true)), chain.Merge(chain.V1Form(1, 2, 100), chain.V1Pay(false, 1)),
@@ -466,7 +466,16 @@ func resealBlock(cs consensus.State, b *types.Block) {
 		over = over || o
 	}
 	if !over {
-		b.MinerPayouts[0].Value = reward
+		// the first payout absorbs the difference (v1-format blocks may carry several payouts)
+		rest, under := reward, false
+		for _, mp := range b.MinerPayouts[1:] {
+			var u bool
+			rest, u = rest.SubWithUnderflow(mp.Value)
+			under = under || u
+		}
+		if !under {
+			b.MinerPayouts[0].Value = rest
+		}
 	}
 	if b.V2 != nil {
 		b.V2.Commitment = cs.Commitment(b.MinerPayouts[0].Address, b.Transactions, b.V2.Transactions)
